@@ -6,7 +6,7 @@
    [global_projection] shows that every history of TrapSet API calls is such a
    history for each condition in play. *)
 From Yv Require Import Common.Base C11.Model C11.Spec C11.Proofs C11.ProofsB C11.ProofsC
-  C11.ProofsD C11.ProofsE C11.Examples.
+  C11.ProofsD C11.ProofsE C11.ScriptModel C11.ScriptSpec C11.ScriptProofs C11.Examples.
 
 (* every history of API operations acts on each condition as a per-condition history *)
 Theorem global_projection : forall univ gops,
@@ -158,13 +158,36 @@ Proof. exact pending_cleared_thm. Qed.
 Theorem oracle_sound : forall univ gops,
   univ_ok univ = true ->
   Forall (fun o => gop_ok (map fst univ) o = true) gops ->
-  oracle_hist (spec_inits univ) (obs_inits univ) (model_trace (ginit univ) gops) = None.
+  oracle_hist false (spec_inits univ) (obs_inits univ) (model_trace (ginit univ) gops) = None.
 Proof. exact oracle_sound_thm. Qed.
 
 Example oracle_sound_nonvacuous :
   univ_ok ex_univ = true /\
   Forall (fun o => gop_ok (map fst ex_univ) o = true) ex_gops.
 Proof. exact (conj ex_univ_ok ex_gops_ok). Qed.
+
+(* Second half of the property, on the model of trap execution around commands
+   (ScriptModel.v): for every table of trap actions and every script of the
+   command language (simple instrumented commands, brace groups, subshells,
+   if), whatever the fuel, the trace of the run is accepted by the monitor of
+   ScriptSpec.v: a trap action starts only for a trapped signal with a delivery
+   outstanding and consumes it (exactly once per delivery, deliveries before a
+   boundary coalescing); outside an action no command runs while a delivery is
+   outstanding (the action runs at the next command boundary); inside an
+   action deliveries are deferred; the action runs to its end; $? is handed to
+   the action and restored after it; a killed process does nothing more; a
+   subshell starts with the command traps reset. *)
+Theorem trap_runs_once_per_delivery_at_boundary : forall tbl bf main trace dead,
+  script_ok tbl main = true ->
+  run_script tbl bf main = Some (trace, dead) ->
+  monitor false tbl trace dead = None.
+Proof. exact script_monitor_sound_thm. Qed.
+
+Example trap_runs_nonvacuous :
+  script_ok ex_tbl ex_main = true /\
+  run_script ex_tbl 8 ex_main = Some (ex_trace, false) /\
+  monitor false ex_tbl ex_trace false = None.
+Proof. exact (conj ex_script_ok (conj ex_script_runs ex_monitor_accepts)). Qed.
 
 Print Assumptions global_projection.
 Print Assumptions disposition_inv.
@@ -179,3 +202,4 @@ Print Assumptions pending_set_by_delivery.
 Print Assumptions pending_cleared_once.
 Print Assumptions pending_cleared_only_by.
 Print Assumptions oracle_sound.
+Print Assumptions trap_runs_once_per_delivery_at_boundary.
